@@ -608,5 +608,12 @@ pub fn base_scenario(
         heap_fill: *rng.pick(&[0x00u8, 0xFF, 0xA5, 0x7F, 0x80]),
         builder_order: if rng.chance(0.5) { 0 } else { rng.below(6) as u8 },
     };
+    let mut sc = sc;
+    // repeated setter calls (see AnyProb::build), drawn without touching the main stream:
+    // 1 scenario in 8 calls weights and/or observations twice
+    let h = crate::prng::mix(seed, "builder-repeats", index);
+    if h % 8 == 0 {
+        sc.builder_order += 6 * (1 + ((h >> 8) % 3) as u8);
+    }
     (sc, d)
 }
